@@ -97,6 +97,23 @@ CLAIMS["C06"] = (
     "of the string key encoding is not decided.",
     "table extraction by path condition + guard dominance + def-use order checks on MIR")
 
+CLAIMS["C01"] = (
+    "decides control-transfer plumbing: every placeholder opcode's address is registered for "
+    "patching before it is pushed; the linker patches each placeholder kind in its own arm with "
+    "the right component (code vs data address); WHILE/WEND cross-linking; the VM dispatch table "
+    "(91 opcodes) and the statement->generator table (39) against frozen reviewed tables; every "
+    "compiled sub-fragment is consumed on every successful codegen path (ownership/linearity "
+    "rule over MIR moves); RETURN carries only the top value; trace lookup. Program output for "
+    "all programs is not decided.",
+    "must-dominate registration, table agreement, linear-use (move) analysis on MIR")
+CLAIMS["C20"] = (
+    "decides the relocation arithmetic structurally: Link::append reads its offsets before "
+    "appending and adds the matching offset to each of the imported addresses and local "
+    "symbols while leaving line symbols untouched; resolution is by symbol key; line symbols "
+    "precede their code; direct code sits after the linked program; one allocator for local "
+    "symbols. Behavioural equality across layouts is not decided.",
+    "def-use analysis of relocation additions + dominance of offset reads")
+
 NOT_APPLICABLE = {}
 
 
